@@ -61,6 +61,7 @@ type walkStats struct {
 	StreamErrs   int // DecodeStream or Read failed
 	Drained      int64
 	DrainCapped  int
+	DCTChains    int // streams drained whose filter chain has DCTDecode below another filter
 	PagesSeen    int
 	PagesDecoded int
 	PageErrs     int
@@ -287,6 +288,14 @@ func (w *walker) drainStream(r pdf.Getter, stm *pdf.Stream, ref pdf.Reference) {
 	if rc == nil {
 		w.viol = fmt.Errorf("pdf.DecodeStream(%s) returned neither a reader nor an error", ref)
 		return
+	}
+	if fa, ok := stm.Dict["Filter"].(pdf.Array); ok {
+		for _, f := range fa[:max(len(fa)-1, 0)] {
+			if n, ok := f.(pdf.Name); ok && (n == "DCTDecode" || n == "DCT") {
+				st.DCTChains++
+				break
+			}
+		}
 	}
 	limit := int64(streamCap)
 	if w.total >= totalDrainCap {
